@@ -1,6 +1,12 @@
 """Merge /verif/findings/*.json into known_findings.json, skipping keys listed in FIXED (fixed by commits in /repo)."""
 import glob, json, subprocess, sys
 FIXED = {  # key -> (property, commit subject prefix)
+  "C40:flex_geom_vertex:normal-reversed": ("C40", "fix: 1D flex vertex contacts point from the geom"),
+  "C07:TOUCH:cutoff-ignored": ("C07", "fix: touch sensors apply their cutoff"),
+  "C07:LIMITSENSOR:joint-tendon-id-collision": ("C07", "fix: joint-limit sensors read joint-limit rows only"),
+  "C07:GEOMDIST:capsule-capsule-beyond-margin": ("C07", "fix: capsule-capsule reports the distance of pairs beyond"),
+  "C07:RK4:sensordata-of-last-stage": ("C07", "fix: rungekutta4 leaves sensordata"),
+  "C07:ENERGY:zeroed-with-energy-sensors": ("C07", "fix: energy computed by energy sensors"),
   "C32:solver.solve:sleep-enabled-island-disabled-crash": ("C32", "fix: solve takes the sleep path only when islands"),
   "C32:deriv_smooth_vel:fluid-derivative-with-passive-disabled": ("C32", "fix: deriv_smooth_vel skips the fluid derivative"),
   "C26:discrete_acc:implicitfast:fluid-derivative-with-passive-disabled": ("C26", "fix: deriv_smooth_vel skips the fluid derivative"),
